@@ -16,7 +16,7 @@ from __future__ import annotations
 
 import ast
 
-from core.cfg import always_exits
+from core.cfg import always_exits, exit_kinds
 from core.inline_stmt import inline_view
 from core.loader import FuncInfo, header, norm, parent
 from core.types import members
@@ -122,8 +122,17 @@ class Dependence:
                 a = self.block(st.body, dep, c)
                 b = self.block(st.orelse, dep, c)
                 dep = a | b
-                if c and (always_exits(st.body) or (st.orelse and always_exits(st.orelse))):
-                    ctl = True  # everything after an early exit decided by the limit is control-dependent on it
+                if c:
+                    # everything after a `continue` / `break` decided by the limit is control-dependent on it.  A `return` / `raise` is
+                    # different: a path that goes on to the constructor has not taken it, so what reaches the constructor was computed as
+                    # without a limit (whether a graph is constructed at all, and with which limit, is C09.R4's table)
+                    kinds: set[str] = set()
+                    if always_exits(st.body):
+                        kinds |= exit_kinds(st.body)
+                    if st.orelse and always_exits(st.orelse):
+                        kinds |= exit_kinds(st.orelse)
+                    if kinds & {"continue", "break"}:
+                        ctl = True
             elif isinstance(st, (ast.For, ast.AsyncFor, ast.While)):
                 head = st.iter if not isinstance(st, ast.While) else st.test
                 for _ in range(2):
